@@ -51,7 +51,7 @@ static void run_case(long idx)
     vrng r = vr_make(V.seed, 1000 + (uint64_t)g_prop, (uint64_t)idx);
     int const nframes = (P02 || P05) ? 1 + (int)vr_u(&r, 3) : 1;
     vparams P; vp_random(&r, &P, VP_MT | VP_MAGICLESS | (P05 ? VP_SMALLWIN * (int)vr_u(&r, 2) : 0));
-    if (P.windowLog > 22) P.n = 1;
+    if (P.windowLog > 22) vp_level_only(&P);
     if (P.magicless && nframes > 1) { P.magicless = 0; for (int i = 0; i < P.n; i++) if (P.p[i] == ZSTD_c_format) P.v[i] = 0; }
     /* dictionary (C05): raw content, must drop out of reach with small windows */
     size_t dictLen = 0; uint8_t* dict = NULL; int dictMode = 0;
@@ -89,7 +89,8 @@ static void run_case(long idx)
                 int const progressed = (h->inAfter > h->inBefore) || (h->outAfter > h->outBefore);
                 if (hadIn && hadOut && !progressed && h->ret != 0) v_viol("progress:call-with-input-and-output-room-did-nothing", "%s call %zu dir=%d ret=%zu", desc, k, h->dir, h->ret);
                 if (h->inAfter < h->inBefore || h->outAfter < h->outBefore || h->inAfter > h->inSize || h->outAfter - h->outBefore > h->outSize) v_viol("progress:position-moved-backwards-or-past-the-buffer", "%s call %zu", desc, k);
-                if (hadIn && hadOut) v_stat("calls_with_input_and_room", 1); }
+                if (hadIn && hadOut) v_stat("calls_with_input_and_room", 1);
+                if (h->dir != ZSTD_e_continue && h->ret == 0 && h->inAfter < h->inSize) v_viol("completion:directive-reported-complete-with-input-unconsumed", "%s call %zu dir=%s consumed %zu of %zu", desc, k, h->dir == ZSTD_e_end ? "end" : "flush", h->inAfter, h->inSize); }
             /* (b) once flush reported completion, the bytes so far decode to exactly the input consumed so far */
             for (int q = 0; q < L.nFlush; q++) {
                 ZSTD_DStream* d = ZSTD_createDStream(); if (P.magicless) ZSTD_DCtx_setParameter(d, ZSTD_d_format, ZSTD_f_zstd1_magicless); ZSTD_DCtx_setParameter(d, ZSTD_d_windowLogMax, 30);
@@ -127,16 +128,24 @@ static void run_case(long idx)
             dscript D; d_gen_script(&r, &D, ctotal); int const stable = (rep == 1) && vr_chance(&r, 1, 2);
             ZSTD_DCtx_reset(d, ZSTD_reset_session_only); if (stable) ZSTD_DCtx_setParameter(d, ZSTD_d_stableOutBuffer, 1); else ZSTD_DCtx_setParameter(d, ZSTD_d_stableOutBuffer, 0);
             ZSTD_inBuffer in = { dst, 0, 0 }; ZSTD_outBuffer ob = { out, 0, 0 }; size_t ret = 1; int k = 0; long guard = 0; int zeros = 0; int bad = 0; int emptyInCalls = 0;
+            size_t offered = 0;   /* absolute end of the input made available so far */
+            int lastFilledOut = 0, consecutiveDrains = 0;
+            int const drainRate = (int)vr_u(&r, 4);       /* 0: never; else 1/drainRate+1 of the calls offer an empty input slice */
             memset(out, 0, total);
             while (1) {
                 size_t const inc = D.inChunk[k % D.n], outc = D.outChunk[k % D.n]; k++;
-                /* sometimes a drain-only call: no new input offered, only output room (legal history) */
-                int const drainOnly = (in.pos == in.size) && (in.size < ctotal) && vr_chance(&r, 1, 6) && ret != 0;
-                if (!drainOnly) in.size = V_MIN(ctotal, in.size + (in.pos == in.size ? inc : 0));
+                /* sometimes a drain-only call: an EMPTY input slice although input remains (legal history; the leftover is offered again afterwards) */
+                /* only while output is known to be pending (the previous call filled its output window) - repeated empty calls with nothing
+                 * to drain are legitimately answered with noForwardProgress_inputEmpty after ZSTD_NO_FORWARD_PROGRESS_MAX calls */
+                int const drainOnly = drainRate && ret != 0 && (ob.pos < total) && lastFilledOut && consecutiveDrains < 3 && vr_chance(&r, 1, (uint32_t)drainRate + 1);
+                consecutiveDrains = drainOnly ? consecutiveDrains + 1 : 0;
+                if (in.pos == offered) offered = V_MIN(ctotal, offered + inc);
+                in.size = drainOnly ? in.pos : offered;
                 if (stable) ob.size = total; else ob.size = V_MIN(total, ob.pos + outc);
                 size_t const ib = in.pos, obp = ob.pos;
                 ret = ZSTD_decompressStream(d, &ob, &in);
                 if (drainOnly) emptyInCalls++;
+                lastFilledOut = !stable && (ob.pos == ob.size) && ob.size > obp;
                 if (ZSTD_isError(ret)) { v_viol("roundtrip:streaming-decoder-fails-on-valid-stream", "%s stable=%d in=%zu/%zu out=%zu/%zu: %s", desc, stable, in.pos, ctotal, ob.pos, total, ZSTD_getErrorName(ret)); bad = 1; break; }
                 if (in.pos < ib || ob.pos < obp) { v_viol("history:decoder-position-moved-backwards", "%s", desc); bad = 1; break; }
                 if (ret == 0) {   /* completion reported: must be exactly at a frame end with that frame's output delivered */
@@ -146,7 +155,7 @@ static void run_case(long idx)
                     zeros++;
                 }
                 if (in.pos == ctotal && ob.pos == total && (ret == 0 || fb[nfb - 1].skippable)) break;
-                if (in.pos == ctotal && ob.pos == total && ret != 0) { if (++guard > 8) { v_viol("history:decoder-never-reports-completion", "%s ret=%zu", desc, ret); bad = 1; break; } continue; }
+                if (in.pos == ctotal && ob.pos == total && ret != 0) { if (++guard > 64) { v_viol("history:decoder-never-reports-completion", "%s ret=%zu", desc, ret); bad = 1; break; } continue; }
                 if (++guard > 40000000) { v_viol("history:decoder-loop-without-end", "%s", desc); bad = 1; break; }
             }
             if (!bad) { if (memcmp(out, x, total)) v_viol("roundtrip:streaming-decoder-mismatch", "%s stable=%d", desc, stable);
